@@ -1047,7 +1047,7 @@ def _propagate_bools(fdef):
             st = stmts[i]
             for owner, f in _child_lists(st):
                 try_list(getattr(owner, f))
-            if isinstance(st, ast.Assign) and len(st.targets) == 1 and isinstance(st.targets[0], ast.Name) and (_is_boolish(st.value) or _is_attr_path(st.value)):
+            if isinstance(st, ast.Assign) and len(st.targets) == 1 and isinstance(st.targets[0], ast.Name) and (_is_boolish(st.value) or isinstance(st.value, ast.Attribute)):
                 b = st.targets[0].id
                 uses = loads.get(b, [])
                 rest = stmts[i + 1:]
@@ -1095,6 +1095,12 @@ def _propagate_bools(fdef):
                                     h_ = h_.operand
                                 elif isinstance(h_, ast.BoolOp):
                                     h_ = h_.values[0]
+                                elif isinstance(h_, ast.Call):
+                                    h_ = h_.func        # `f = obj.method; f(x)`: the callee is evaluated before the arguments
+                                elif isinstance(h_, (ast.Attribute, ast.Subscript)):
+                                    h_ = h_.value
+                                elif isinstance(h_, ast.Compare):
+                                    h_ = h_.left
                                 else:
                                     ok = False
                                     break
